@@ -386,9 +386,25 @@ def clause_extension_wiring(prog, rep):
         rep.check(var in built, "extension-wiring", "length/%s" % fld, "a wrong %s length fails with Error::%s" % (fld, var),
                   "from_raw no longer reports Error::%s for a wrong %s length" % (var, fld), fr[0].loc())
     rep.check("InvalidExtensionVersion" in built, "extension-wiring", "version-zero", "version 0 is refused", "version 0 is no longer refused", fr[0].loc())
-    tries = [c for c in fr[0].live_calls() if c.name == "try_into"]
-    rep.check(len(tries) >= 4, "extension-wiring", "checked-conversions", "the four optional fields use checked fixed-length conversions (%d try_into)" % len(tries),
-              "optional fields are no longer converted with checked try_into (%d found)" % len(tries), fr[0].loc())
+    # every optional fixed-size field is produced by an exact-length conversion (`TryFrom<Vec<u8>>`/`TryFrom<&[u8]>` for `[u8; N]`
+    # fail on any other length) and by no prefix-taking call (`first_chunk`, `split_at`, `truncate`, `[..N]`): a longer wire field
+    # must be refused, not cut. Decided per field on the data path of the value stored in the typed struct, helpers included.
+    PREFIX = ("first_chunk", "last_chunk", "split_first_chunk", "split_last_chunk", "split_at", "split_at_checked", "truncate",
+              "resize", "copy_from_slice", "clone_from_slice", "take", "chunks", "chunks_exact", "array_chunks", "as_chunks")
+    for bb, s_ in final[:1]:
+        for fld in sorted(OPTIONAL):
+            o = A.agg_field_operand(s_, fld)
+            if not o or "p" not in o:
+                continue
+            og = A.origins(prog, fr0, o["p"][0], scope=None, max_frames=3, _follow_callers=False)
+            std = [c for c in og.calls if c.krate in ("core", "alloc", "std")]
+            exact = [c for c in std if c.name in ("try_into", "try_from")]
+            cut = [c for c in std if c.name in PREFIX or (c.name in ("index", "get", "index_mut", "get_mut") and "Range" in str(c.gen))]
+            rep.check(bool(exact) and not cut, "extension-wiring", "checked-conversions/%s" % fld,
+                      "%s is produced by an exact-length conversion (%s) and by no prefix-taking call" % (fld, sorted(set(c.name for c in exact))),
+                      "%s is no longer produced by an exact-length conversion alone (exact conversions on its data path: %s; prefix-taking calls: %s): "
+                      "a wire field longer than the fixed size is cut and accepted instead of refused"
+                      % (fld, sorted(set(c.name for c in exact)) or "none", sorted(set("%s @%s" % (c.name, c.loc()) for c in cut)) or "none"), fr0.loc())
 
 
 def clause_imeta(prog, rep):
